@@ -96,6 +96,13 @@ func newFakeEndpoint(script []int) *fakeEndpoint {
 		}
 		w.WriteHeader(st)
 	})}
+	// close with RST: thousands of executions per minute must not leave their
+	// connections in TIME_WAIT (the ephemeral port range would run out)
+	ep.srv.ConnState = func(c net.Conn, st http.ConnState) {
+		if tc, ok := c.(*net.TCPConn); ok && st == http.StateNew {
+			tc.SetLinger(0)
+		}
+	}
 	go ep.srv.Serve(ln)
 	return ep
 }
@@ -349,12 +356,17 @@ func c10Run(job *Job, p c10Params, prefix []int) (out schedOut) {
 }
 
 func checkC10Sched(job *Job, res *Result) {
-	res.Rule = "SCHED: two concurrent writers whose SETs fire one fence, received by (a) a SUBSCRIBE and a PSUBSCRIBE connection, (b) a live fence connection, (c) a webhook on a real local HTTP endpoint; PUBLISH against a SUBSCRIBE that is acknowledged first / races; every schedule with at most 2 (thorough 3) deviations from the default schedule (all non-default choices count, not only preemptions: these scenarios have 8+ independent threads); distinct = distinct (scenario, log order, received sequences)"
+	res.Rule = "SCHED: two concurrent writers whose SETs fire one fence, received by (a) a SUBSCRIBE and a PSUBSCRIBE connection, (b) a live fence connection, (c) a webhook on a real local HTTP endpoint; PUBLISH against a SUBSCRIBE that is acknowledged first / races; a write racing the re-definition of the webhook it fires while the endpoint's first answer is a failure (500 / refused; with and without a later write); every schedule with at most 2 (thorough 3) deviations from the default schedule (all non-default choices count, not only preemptions: these scenarios have 8+ independent threads); distinct = distinct (scenario, log order, received sequences)"
 	res.Assumptions = append(res.Assumptions, "the webhook endpoint is a real net/http server on loopback driven by free-running goroutines; the controlled thread performing the POST simply waits for it")
 	if job.Replay != nil {
 		replaySched(job, res, func(params []byte, sched []int) schedOut {
 			var p c10Params
 			mustJSON(params, &p)
+			if strings.HasPrefix(p.Name, "redefine-") {
+				var rp c10RedefParams
+				mustJSON(params, &rp)
+				return c10RedefRun(job, rp, sched)
+			}
 			return c10Run(job, p, sched)
 		})
 		return
@@ -376,6 +388,19 @@ func checkC10Sched(job *Job, res *Result) {
 		if p.Kind == "chan" {
 			res.Sample(map[string]any{"scenario": sc.Name, "outcomes": st.Outcomes})
 		}
+		if res.EngineError != "" {
+			return
+		}
+	}
+	for _, p := range c10RedefScenarios() {
+		p := p
+		b := bound
+		if b > 1 && job.Tier != "thorough" {
+			b = 1 // real HTTP round trips per execution
+		}
+		sc := schedScenario{Name: "c10." + p.Name, Params: p, Run: func(prefix []int) schedOut { return c10RedefRun(job, p, prefix) }, DevBound: true}
+		st := exploreSched(job, res, sc, b)
+		res.Extra[sc.Name] = map[string]any{"execs": st.Execs, "outcomes": len(st.Outcomes), "max_choice_points": st.MaxPoints, "bound": b}
 		if res.EngineError != "" {
 			return
 		}
